@@ -127,6 +127,22 @@ Theorem C20_views_over_store_bits_held : forall (S : Type) (get_raw : S -> res Z
     rbind (set_raw s (set_field raw lo (hi - lo + 1) v)) (fun s' => Ok (s', Ok v)).
 Proof. exact @store_bits_held. Qed.
 
+(* a store whose READ fails (write-only object, SDO abort on upload) while writes would succeed: the failure comes out
+   of every getter and out of the read-modify-write assignment to a bit field unchanged; no raw value is computed and
+   nothing is written (the result carries no new store) *)
+Theorem C20_views_over_store_read_fails : forall (S : Type) (get_raw : S -> res Z) (set_raw : S -> Z -> res S) od s,
+    (forall a, get_raw s = Abort a ->
+       (forall key, bits_get get_raw od s key = Abort a) /\
+       (forall key v, bits_set get_raw set_raw od s key v = Abort a) /\
+       (forall key v, bits_held get_raw set_raw od s key v = Abort a) /\
+       phys_get get_raw od s = Abort a /\ desc_get get_raw od s = Abort a) /\
+    (forall k, get_raw s = Err k ->
+       (forall key, bits_get get_raw od s key = Err k) /\
+       (forall key v, bits_set get_raw set_raw od s key v = Err k) /\
+       (forall key v, bits_held get_raw set_raw od s key v = Err k) /\
+       phys_get get_raw od s = Err k /\ desc_get get_raw od s = Err k).
+Proof. exact @store_read_fails. Qed.
+
 Theorem C20_views_over_store_desc : forall (S : Type) (get_raw : S -> res Z) (set_raw : S -> Z -> res S),
   (forall s v s', set_raw s v = Ok s' -> get_raw s' = Ok v) ->
   forall od s raw, get_raw s = Ok raw -> NoDup (map fst (od_descs od)) ->
@@ -274,3 +290,4 @@ Print Assumptions C20_source_encode_bits_is_model.
 Print Assumptions C20_source_read_route_is_model.
 Print Assumptions C20_source_write_route_is_model.
 Print Assumptions C20_read_write_agree.
+Print Assumptions C20_views_over_store_read_fails.
